@@ -27,7 +27,8 @@ META = {
         'semantic equivalence of compiled code and filter over all programs x data as an execution; spacing variants.'
         ' Also (D7): the last hop of a path is recognised by position, not by the name of the segment.'
         ' Also (D5): the generated source is never the left operand of `%`.'
-        ' Also (D4): a mapping method called on the walked value needs AttributeError in the handler.  (D5) time literals are exact.'),
+        ' Also (D4): a mapping method called on the walked value needs AttributeError in the handler.  (D5) time literals are exact.'
+        ' Round 9: (D1) the words not/and/or are pyparsing Keywords wherever a name can follow; (D8) one-return helpers on the text chain are read at their call site.'),
     'rule_text': 'obligations = grammar-structure facts, fold index coverage, operator-table rows, sentinel methods, '
                  'literal kinds x resolvability, generator branches, loop facts, sibling pairs',
     'trusted_base': ['pyparsing And/MatchFirst/ZeroOrMore token order; Python evaluates `a and b or c` with the usual '
